@@ -260,10 +260,14 @@ func (c *Cond) Broadcast() {
 	}
 	s.Point(simrt.KSync, "Cond.Broadcast")
 	s.Release(c)
+	woke := len(c.waiters) > 0
 	for _, w := range c.waiters {
 		w.signaled = true
 	}
 	c.waiters = nil
+	if woke {
+		s.Point(simrt.KSync, "Cond.woken")
+	}
 }
 
 // Once mirrors sync.Once.
@@ -324,6 +328,9 @@ func (w *WaitGroup) Add(delta int) {
 	w.n += delta
 	if w.n < 0 {
 		panic("sync: negative WaitGroup counter")
+	}
+	if delta < 0 && w.n == 0 {
+		s.Point(simrt.KSync, "WaitGroup.released") // the waiter may run before this task's next statement
 	}
 }
 
